@@ -180,7 +180,6 @@ structure CoreV (cfg : Cfg) (d : Dev) (vs : List CV) : Prop where
   q : QInv d.q (vs.map (·.backlog))
   pc : ∀ v ∈ vs, PC cfg d v
   alloc : d.free + d.q.length = d.allocated
-  lines : d.opened = true → d.maxLines = cfg.count d.active
   depth : d.opened = true → defaultBufferCount ≤ d.free + d.q.length
 
 /-- what a client contributes to the device's service set -/
@@ -192,6 +191,7 @@ structure SettledV (cfg : Cfg) (d : Dev) (vs : List CV) : Prop where
   gs : ∀ v ∈ vs, v.state = .forward → v.allServices = allOf cfg v.services
   os : d.opened = true → unionV vs ≠ 0
   un : d.opened = true → d.allServices = unionV vs
+  lines : d.opened = true → d.maxLines = cfg.count d.active
 
 theorem contrib_ne_zero {v : CV} : contrib v ≠ 0 ↔ v.subscribed = true := by
   unfold contrib CV.subscribed
@@ -250,7 +250,7 @@ theorem coreV_release {cfg : Cfg} {d : Dev} {vs : List CV} {i : Nat} {v : CV} (f
   have pv := h.pc v hvm
   have hbl : v.backlog ≤ d.q.length := h.q.bound _ (List.mem_map.mpr ⟨v, hvm, rfl⟩)
   have hb1 : v.backlog - 1 ≤ q'.length := inv'.bound _ (List.mem_set hi' _)
-  refine ⟨q', f', hr, ⟨?_, ?_, ?_, h.lines, ?_⟩⟩
+  refine ⟨q', f', hr, ⟨?_, ?_, ?_, ?_⟩⟩
   · show QInv q' _
     rw [List.map_set]; exact inv'
   · intro u hu
@@ -299,7 +299,7 @@ theorem coreV_releaseAll {cfg : Cfg} {d : Dev} {vs : List CV} {i : Nat} {v : CV}
   obtain ⟨q', f', hr, inv', hsum, hle⟩ := releaseAllQ_ok v.backlog d.free h.q hi' hb
   have hvm : v ∈ vs := mem_of_getElem?_eq hi
   have pv := h.pc v hvm
-  refine ⟨q', f', hr, ⟨?_, ?_, ?_, h.lines, ?_⟩⟩
+  refine ⟨q', f', hr, ⟨?_, ?_, ?_, ?_⟩⟩
   · show QInv q' _
     rw [List.map_set]; exact inv'
   · intro u hu
@@ -331,7 +331,7 @@ theorem coreV_releaseAll {cfg : Cfg} {d : Dev} {vs : List CV} {i : Nat} {v : CV}
 have to be re-established for that client only -/
 theorem coreV_set {cfg : Cfg} {d : Dev} {vs : List CV} {i : Nat} {v v' : CV} (h : CoreV cfg d vs)
     (hi : vs[i]? = some v) (hb : v'.backlog = v.backlog) (hp : PC cfg d v') : CoreV cfg d (vs.set i v') := by
-  refine ⟨?_, forall_mem_set h.pc hp, h.alloc, h.lines, h.depth⟩
+  refine ⟨?_, forall_mem_set h.pc hp, h.alloc, h.depth⟩
   rw [List.map_set, hb]
   have : (vs.map (·.backlog))[i]? = some v.backlog := by rw [List.getElem?_map, hi]; rfl
   rw [set_eq_self_of_getElem? this]; exact h.q
@@ -344,7 +344,7 @@ theorem coreV_erase {cfg : Cfg} {d : Dev} {vs : List CV} {i : Nat} {v : CV} (h :
     by_cases hb : 0 < v.backlog
     · have := (h.pc v hvm).sub hb; rw [hs] at this; cases this
     · omega
-  refine ⟨?_, fun u hu => h.pc u (List.mem_of_mem_eraseIdx hu), h.alloc, h.lines, h.depth⟩
+  refine ⟨?_, fun u hu => h.pc u (List.mem_of_mem_eraseIdx hu), h.alloc, h.depth⟩
   have : (vs.eraseIdx i).map (·.backlog) = (vs.map (·.backlog)).eraseIdx i := by
     rw [map_eraseIdx]
   rw [this]
@@ -354,7 +354,7 @@ theorem coreV_erase {cfg : Cfg} {d : Dev} {vs : List CV} {i : Nat} {v : CV} (h :
 /-- `vbi_proxyd_add_connection` -/
 theorem coreV_append {cfg : Cfg} {d : Dev} {vs : List CV} (h : CoreV cfg d vs) (v : CV) (hb : v.backlog = 0)
     (hp : PC cfg d v) : CoreV cfg d (vs ++ [v]) := by
-  refine ⟨?_, ?_, h.alloc, h.lines, h.depth⟩
+  refine ⟨?_, ?_, h.alloc, h.depth⟩
   · rw [List.map_append]; simp only [List.map_cons, List.map_nil, hb]; exact QInv_append h.q
   · intro u hu
     rcases List.mem_append.mp hu with h1 | h1
@@ -366,7 +366,7 @@ theorem coreV_flush {cfg : Cfg} {d : Dev} {vs : List CV} (h : CoreV cfg d vs) :
     CoreV cfg { d with q := [], free := d.free + d.q.length }
       (vs.map (fun v => { v with backlog := 0,
                                  done := ((d.q.take v.backlog).map (fun e => (e.frame, Fate.flushed))) ++ v.done })) := by
-  refine ⟨?_, ?_, ?_, h.lines, ?_⟩
+  refine ⟨?_, ?_, ?_, ?_⟩
   · apply QInv_nil
     intro b hb
     simp only [List.map_map, List.mem_map, Function.comp] at hb
